@@ -8,7 +8,9 @@ configuration `cfg`; every theorem below quantifies over all configurations, all
 and all addresses / denoms / proposal ids.
 
 * sanction rule: `isSanctioned_spec`, `isSanctioned_spec_reachable`, `checker_rule_iff`,
-  `passed_messages_take_effect`, `immediate_entries_take_effect`,
+  `passed_messages_take_effect` (function level), `passed_proposal_takes_effect` (through
+  `tallyOne`), `passed_proposal_takes_effect_block` (through the `.block` operation of a history),
+  `tally_changes_only_named_addresses`, `immediate_entries_take_effect`,
   `status_changes_only_by_governance`
 * immediate entries and the deposit threshold (every denom of the immediate min deposit must
   be reached): `threshold_test_is_per_denom`, `deposit_short_in_one_denom_does_not_reach`,
@@ -25,8 +27,18 @@ and all addresses / denoms / proposal ids.
   holds (histories without a successful cancellation).
 * key layout (keys.go): `temporaryKey_order`, `temporaryAddrPrefix_selects`,
   `temporaryKey_injective`, `proposalIndexPrefix_selects`
-* funds: `sanctioned_debit_refused`, `sanctioned_balance_nondecreasing`,
-  `sanctioned_balance_nondecreasing_history`, `credit_to_sanctioned_succeeds`
+* funds: `sanctioned_debit_refused` (restates the branch of the three bank primitives; the
+  substantive statements are the next two, over ALL operations of the model — order settlements,
+  payments, marker transfers and withdrawals on the account's behalf included),
+  `sanctioned_balance_nondecreasing`, `sanctioned_balance_nondecreasing_history`
+* the converse (nobody is refused as sanctioned who is not): `sanctioned_refusal_names_sanctioned_debited`,
+  `unsanctioned_never_refused_as_sanctioned`, witness `zero_transfer_from_sanctioned`; an
+  unsanctioned, funded account gets through every debit route: `unsanctioned_funded_bank_routes_succeed`,
+  `unsanctioned_funded_deposit_succeeds`, `unsanctioned_funded_submit_succeeds`,
+  `unsanctioned_funded_marker_transfer_succeeds`, `unsanctioned_funded_withdrawals_succeed`,
+  `unsanctioned_funded_settlement_succeeds`, `unsanctioned_funded_payment_succeeds`
+* "can still receive": `credit_to_sanctioned_succeeds`, `multi_send_credits_sanctioned_outputs`,
+  `refunds_reach_sanctioned_depositors`, `credit_with_refused_debit_is_rolled_back`
 * funds moved on an account's behalf (marker transfers by an administrator — with an authz grant
   given before the sanction, forced, to a third party or to the administrator itself —,
   withdrawals from a marker's / the market's account, exchange payments and order settlements):
@@ -34,7 +46,7 @@ and all addresses / denoms / proposal ids.
   `behalf_routes_leave_sanctions_alone`; the balance theorems above quantify over these
   operations too.
 -/
-import PvProofs.Lemmas.SancBal
+import PvProofs.Lemmas.SancPass
 import PvProofs.Lemmas.SancThreshold
 import PvProofs.Lemmas.SancKeys
 
@@ -212,6 +224,66 @@ theorem immediate_entries_take_effect (c : Cfg) (st st' : Store) (v : Bool) (id 
     · exact hun h
   simp only [h0, if_false, this]
   cases v <;> rfl
+
+/-- Sanction status follows governance, through the gov module (not just at function level): in
+every reachable state, when the tally of proposal `id` (`tallyOne`, one entry of the active queue of
+the gov `EndBlocker`: deposits settled, messages executed on a cached context, gov hook called)
+turns the proposal — stored and not passed before — into a passed one, every address named by its
+messages has afterwards the status the LAST message naming it gives it (`Spec.lastNaming`):
+sanctioned for a `MsgSanction`, not sanctioned for a `MsgUnsanction`, whatever temporary entries
+of whatever proposals existed.  (Protected accounts need no exception here: a `MsgSanction` naming
+one fails, so the proposal ends failed, not passed.) -/
+theorem passed_proposal_takes_effect (cfg : Cfg) (ops : List Op) (id : Nat) (s' : State) (p q : Proposal)
+    (a : Addr) (v : Bool) :
+    let s := run (init cfg) ops
+    tallyOne s id = .ok s' → getProp s.props id = some p → p.status ≠ .passed →
+    getProp s'.props id = some q → q.status = .passed → lastNaming a p.msgs = some v →
+    isSanctionedAddr s'.cfg s'.st a = v := by
+  intro s hs hg hnp hg' hq hl
+  exact tallyOne_passed_effect (run_inv ops (inv_init cfg)).1 hs hg hnp hg' hq hl
+
+/-- … and the tally of a proposal changes the status of no address it does not name (whether it
+passes, fails, is rejected, or is converted from expedited to regular). -/
+theorem tally_changes_only_named_addresses (cfg : Cfg) (ops : List Op) (id : Nat) (s' : State) (a : Addr) :
+    let s := run (init cfg) ops
+    tallyOne s id = .ok s' → (∀ p, getProp s.props id = some p → a ∉ p.allAddrs) →
+    isSanctionedAddr s'.cfg s'.st a = isSanctionedAddr s.cfg s.st a := by
+  intro s hs ha
+  exact tallyOne_other (run_inv ops (inv_init cfg)).1 hs ha
+
+/-- The same as an operation of a history: after the block (`.block dt`: the whole `EndBlocker` —
+expiries of the inactive queue, then the tallies of the active queue in key order) in which
+proposal `id` passes, every address named by its messages is sanctioned / unsanctioned as the last
+message naming it says — provided no OTHER proposal in its voting period names that address (one
+tallied later in the same block would act on the address in its turn: pass and override it, or be
+converted from expedited to regular and re-create its temporary entry). -/
+theorem passed_proposal_takes_effect_block (cfg : Cfg) (ops : List Op) (dt id : Nat) (p q : Proposal)
+    (a : Addr) (v : Bool) :
+    let s := run (init cfg) ops
+    let s' := run (init cfg) (ops ++ [.block dt])
+    getProp s.props id = some p → p.status = .voting → getProp s'.props id = some q → q.status = .passed →
+    lastNaming a p.msgs = some v → (∀ r ∈ s.props, r.id ≠ id → r.status = .voting → a ∉ r.allAddrs) →
+    isSanctionedAddr s'.cfg s'.st a = v := by
+  intro s s' hg hv hg' hq hl hoth
+  have hs' : s' = step s (.block dt) := by simp [s', s, run, List.foldl_append]
+  rw [hs'] at hg' ⊢
+  unfold step at hg' ⊢
+  cases hop : applyOp s (.block dt) with
+  | error e =>
+    simp only [hop] at hg'
+    rw [hg] at hg'
+    have := Option.some.inj hg'
+    subst this
+    rw [hv] at hq; cases hq
+  | ok s2 =>
+    simp only [hop] at hg' ⊢
+    simp only [applyOp] at hop
+    cases he : endBlocker s with
+    | error e => simp [he] at hop
+    | ok s1 =>
+      simp only [he, Except.ok.injEq] at hop
+      subst hop
+      exact endBlocker_passed_effect (s' := s1) (run_inv ops (inv_init cfg)).1 he hg hv hl hg' hq hoth
 
 /-- the operations through which governance acts on the sanction store -/
 def isGovStep : Op → Bool
@@ -442,7 +514,10 @@ theorem accepted_deposit_creates_reached_entries (cfg : Cfg) (ops : List Op) (s'
 /-! ### 2. protected accounts -/
 
 /-- In every reachable state an unsanctionable (protected module) account is not sanctioned,
-is not in the permanent set and has no temporary *sanction* entry. -/
+is not in the permanent set and has no temporary *sanction* entry.  (The first conjunct is the
+first test of `IsSanctionedAddr`; the content is the other two — invariants of every history: no
+`SanctionAddresses` / hook ever stores such an address — and, through the tally,
+`passed_proposal_takes_effect`: a proposal whose `MsgSanction` names one ends failed, not passed.) -/
 theorem unsanctionable_never_sanctioned (cfg : Cfg) (ops : List Op) (a : Addr) (ha : a ∈ cfg.unsanctionable) :
     let s := run (init cfg) ops
     isSanctionedAddr s.cfg s.st a = false ∧ a ∉ s.st.perm ∧ ∀ e ∈ s.st.temp, e.addr = a → e.val = false := by
@@ -535,7 +610,11 @@ expired **or been cancelled** none of its temporary entries remain:
 -/
 
 /-- `CancelProposal` (sdk x/gov/keeper/proposal.go:135) calls no gov hook: for every state it
-deletes the proposal and leaves the sanction store exactly as it was. -/
+deletes the proposal and leaves the sanction store exactly as it was.  (By itself this reads off the
+model function; what it is for is the history-level pair next to it: the witness
+`cancel_leaves_temp` / `not_no_temp_after_resolution`, replayed on the real app, and
+`temp_entries_live_or_cancelled`, which shows cancellation is the ONLY way an entry outlives its
+proposal.) -/
 theorem cancel_calls_no_hook (s s' : State) (who : Addr) (id : Nat)
     (h : cancelProposal s who id = .ok s') :
     s'.st = s.st ∧ getProp s'.props id = none ∧
@@ -588,7 +667,10 @@ theorem no_temp_after_resolution_partial (cfg : Cfg) (ops : List Op)
 /-! ### 5. funds -/
 
 /-- Every bank primitive refuses to debit a sanctioned account (send restriction,
-send_restriction.go:15, applied by `SendCoins`, `InputOutputCoins`, `DelegateCoins`). -/
+send_restriction.go:15, applied by `SendCoins`, `InputOutputCoins`, `DelegateCoins`).
+This restates the branch of the three model functions; the substantive versions are
+`sanctioned_balance_nondecreasing(_history)` (no operation of any kind lowers a balance) and the
+converse `sanctioned_refusal_names_sanctioned_debited` (§5c). -/
 theorem sanctioned_debit_refused (s : State) (a to : Addr) (tos : List Addr) (amt : Coins)
     (ha : isSanctionedAddr s.cfg s.st a = true) :
     (∀ s', sendCoins s a to amt ≠ .ok s') ∧ (∀ s', delegateCoins s a to amt ≠ .ok s') ∧
@@ -619,7 +701,10 @@ theorem sanctioned_balance_nondecreasing (cfg : Cfg) (hc : CfgOK cfg) (ops : Lis
   | ok s' => exact applyOp_bal hi (by rw [hcfg]; exact hc) hs ha d
 
 /-- Along any stretch `more` of a history during which the account is sanctioned before every
-operation, its balances never decrease. -/
+operation, its balances never decrease.  `more` ranges over ALL operations of the model (`Op`):
+gov submissions / deposits / votes / cancellations / blocks, sends, multi-sends, delegations, fee
+payments, and the routes on the account's behalf — marker transfers (`mxfer`), marker and market
+withdrawals (`mwd`, `mktwd`), exchange payments (`pay`) and order settlements (`settle`). -/
 theorem sanctioned_balance_nondecreasing_history (cfg : Cfg) (hc : CfgOK cfg) (a : Addr) (d : Denom)
     (ops more : List Op)
     (hs : ∀ k, k < more.length →
@@ -752,6 +837,252 @@ theorem behalf_routes_leave_sanctions_alone (s s' : State) (op : Op) (hr : isRou
   have r := (applyOp_route hr h).1
   exact ⟨r.st, r.props, r.cancelled, fun a => by rw [r.st, r.cfg]⟩
 
+/-! ### 5c. the converse of the refusal: nobody is refused as sanctioned who is not
+
+`sanctioned_debit_refused` / `behalf_routes_refuse_sanctioned_debit` say a debit of a sanctioned
+account is refused.  The converse has two halves: an answer `err:sanctioned` always names a
+sanctioned account among those the operation debits (`Spec.debited`, the list the run-time checker
+uses for `fail:unsanctioned_refused`), and an unsanctioned, funded account gets through every debit
+route of the model. -/
+
+/-- For every history and every further operation: when the operation is answered
+`err:sanctioned`, one of the accounts it debits (`Spec.debited`) is sanctioned — or it is a marker
+transfer of amount ZERO out of a sanctioned account (the bank applies the send restriction to an
+empty amount too; nothing is debited, `debited` is empty; witness `zero_transfer_from_sanctioned`).
+The gov module account is protected (app/app.go:676-680), so refunds never fail this way. -/
+theorem sanctioned_refusal_names_sanctioned_debited (cfg : Cfg) (hg : cfg.govAcct ∈ cfg.unsanctionable)
+    (ops : List Op) (op : Op) :
+    let s := run (init cfg) ops
+    applyOp s op = .error .sanctioned →
+      (∃ a ∈ debited s.cfg op, isSanctionedAddr s.cfg s.st a = true) ∨
+      (∃ admin frm to d, op = .mxfer admin frm to d 0 ∧ isSanctionedAddr s.cfg s.st frm = true) := by
+  intro s h
+  obtain ⟨hi, hc, _⟩ := run_inv ops (inv_init cfg)
+  have hc' : s.cfg = cfg := hc
+  exact applyOp_sanctioned (by rw [hc']; exact hg) hi.store.sancPos hi.store.unsancPos h
+
+/-- The checker's clause `fail:unsanctioned_refused`, for the model: an operation that debits
+somebody, none of the debited accounts being sanctioned, is never answered `err:sanctioned`. -/
+theorem unsanctioned_never_refused_as_sanctioned (cfg : Cfg) (hg : cfg.govAcct ∈ cfg.unsanctionable)
+    (ops : List Op) (op : Op) :
+    let s := run (init cfg) ops
+    debited s.cfg op ≠ [] → (∀ a ∈ debited s.cfg op, isSanctionedAddr s.cfg s.st a = false) →
+    applyOp s op ≠ .error .sanctioned := by
+  intro s hne hall h
+  rcases sanctioned_refusal_names_sanctioned_debited cfg hg ops op h with ⟨a, ha, hs⟩ | ⟨admin, frm, to, d, rfl, _⟩
+  · rw [hall a ha] at hs; cases hs
+  · exact hne (by simp [debited])
+
+/-- The bank routes: an unsanctioned account holding the amount sends, multi-sends, pays a fee to
+the fee collector and delegates. -/
+theorem unsanctioned_funded_bank_routes_succeed (s : State) (a to : Addr) (tos : List Addr) (amt : Coins)
+    (hv : validAmt amt = true) (hu : isSanctionedAddr s.cfg s.st a = false) :
+    (hasFunds s.ledger a amt = true →
+      applyOp s (.send a to amt) = .ok { s with ledger := s.ledger.move a to amt } ∧
+      applyOp s (.tomod a amt) = .ok { s with ledger := s.ledger.move a s.cfg.feeColl amt } ∧
+      (onlyBond s.cfg amt = true →
+        applyOp s (.delegate a amt) = .ok { s with ledger := s.ledger.move a s.cfg.bondPool amt })) ∧
+    (tos ≠ [] → hasFunds s.ledger a (Coins.scale tos.length amt) = true →
+      applyOp s (.msend a tos amt) = .ok { s with ledger := tos.foldl (fun l t => l.move a t amt) s.ledger }) := by
+  refine ⟨fun hf => ⟨?_, ?_, fun hb => ?_⟩, fun hne hf => ?_⟩
+  · simp [applyOp, hv, sendCoins_succeeds hu hf]
+  · simp [applyOp, hv, sendCoins_succeeds hu hf]
+  · simp [applyOp, delegateCoins, hv, hb, hu, hf]
+  · have : tos.isEmpty = false := by cases tos <;> simp_all
+    simp [applyOp, inputOutputCoins, hv, hu, hf, this]
+
+/-- A gov deposit of an unsanctioned, funded account on a proposal in its deposit or voting period
+— accepted denoms, above the per-deposit floor — is accepted, whoever else is sanctioned (the
+proposal's own targets included).  `NoProtectedSanction`: a proposal whose `MsgSanction` names a
+protected account makes the gov hook panic for every depositor once a threshold is reached. -/
+theorem unsanctioned_funded_deposit_succeeds (s : State) (who : Addr) (id : Nat) (amt : Coins) (p : Proposal)
+    (hp : getProp s.props id = some p) (hact : p.active = true)
+    (hv : validAmt amt = true) (hcv : coinsValid amt = true)
+    (hden : acceptedDenoms s.cfg amt = true) (hr : ratioMet (depMinFor s.cfg p.expedited) amt = true)
+    (hprot : NoProtectedSanction s.cfg p.msgs)
+    (hu : isSanctionedAddr s.cfg s.st who = false) (hfunds : hasFunds s.ledger who amt = true) :
+    ∃ s', applyOp s (.deposit who id amt) = .ok s' ∧ s'.ledger = s.ledger.move who s.cfg.govAcct amt := by
+  obtain ⟨s', h1, h2, _⟩ := addDeposit_succeeds hp hact hden hr hprot hu hfunds
+  exact ⟨s', by simp [applyOp, hv, hcv, h1], h2⟩
+
+/-- A proposal submission by an unsanctioned, funded account (valid messages, initial deposit of
+accepted denoms covering the initial floor and the per-deposit floor), from every reachable state. -/
+theorem unsanctioned_funded_submit_succeeds (cfg : Cfg) (ops : List Op) (who : Addr) (msgs : List PMsg)
+    (initial : Coins) (exp : Bool) :
+    let s := run (init cfg) ops
+    coinsValid initial = true → Coins.covers initial (initMinFor s.cfg exp) = true →
+    acceptedDenoms s.cfg initial = true → validateMsgs msgs = .ok () →
+    ratioMet (depMinFor s.cfg exp) initial = true → NoProtectedSanction s.cfg msgs →
+    isSanctionedAddr s.cfg s.st who = false → hasFunds s.ledger who initial = true →
+    ∃ s', applyOp s (.submit who msgs initial exp) = .ok s' ∧
+      s'.ledger = s.ledger.move who s.cfg.govAcct initial ∧ s'.nextId = s.nextId + 1 := by
+  intro s h1 h2 h3 h4 h5 h6 h7 h8
+  exact submitProposal_succeeds (run_inv ops (inv_init cfg)).1 h1 h2 h3 h4 h5 h6 h7 h8
+
+/-- A marker transfer out of an unsanctioned, funded account by an administrator entitled to it
+(`transferAuth` accepted: its own coins, an authz grant of the owner, or a forced transfer). -/
+theorem unsanctioned_funded_marker_transfer_succeeds (s s1 : State) (admin frm to : Addr) (d : Denom) (x : Int)
+    (m : Marker) (hne : admin ≠ "" ∧ frm ≠ "" ∧ to ≠ "") (hx : 0 ≤ x) (hm : getMarkerByDenom s.cfg d = some m)
+    (hperm : admin ∈ m.xfer ∨ admin ∈ m.force) (hdep : validateSendToMarker s.cfg to admin = true)
+    (hauth : transferAuth s m admin frm d x = .ok s1) (hnb : to ∉ s.cfg.blocked)
+    (hu : isSanctionedAddr s.cfg s.st frm = false) (hfunds : hasFunds s.ledger frm (oneCoin d x) = true) :
+    applyOp s (.mxfer admin frm to d x) = .ok { s1 with ledger := s.ledger.move frm to (oneCoin d x) } := by
+  obtain ⟨g, rfl⟩ := transferAuth_frame hauth
+  have h0 : ¬(admin = "" ∨ frm = "" ∨ to = "" ∨ x < 0) := by
+    rintro (h | h | h | h)
+    · exact hne.1 h
+    · exact hne.2.1 h
+    · exact hne.2.2 h
+    · omega
+  have h1 : ¬(admin ∉ m.xfer ∧ admin ∉ m.force) := by
+    rintro ⟨a1, a2⟩
+    rcases hperm with h | h
+    · exact a1 h
+    · exact a2 h
+  simp only [applyOp, h0, if_false, transferCoin, hm, h1, hdep, Bool.not_true, Bool.false_eq_true, hauth, hnb]
+  exact sendCoins_succeeds (s := { s with grants := g }) hu hfunds
+
+/-- Withdrawals out of an unsanctioned, funded marker account / market account. -/
+theorem unsanctioned_funded_withdrawals_succeed (s : State) (admin to : Addr) (amt : Coins)
+    (hne : admin ≠ "" ∧ to ≠ "") (hv : validAmt amt = true) (hcv : coinsValid amt = true)
+    (hnb : to ∉ s.cfg.blocked) :
+    (∀ d m, getMarkerByDenom s.cfg d = some m → admin ∈ m.withdraw → validateSendToMarker s.cfg to admin = true →
+      isSanctionedAddr s.cfg s.st m.addr = false → hasFunds s.ledger m.addr amt = true →
+      applyOp s (.mwd admin to d amt) = .ok { s with ledger := s.ledger.move m.addr to amt }) ∧
+    (admin ∈ s.cfg.marketAdmins → isSanctionedAddr s.cfg s.st s.cfg.market = false →
+      hasFunds s.ledger s.cfg.market amt = true →
+      applyOp s (.mktwd admin to amt) = .ok { s with ledger := s.ledger.move s.cfg.market to amt }) := by
+  have h0 : ¬(admin = "" ∨ to = "" ∨ (!(validAmt amt && coinsValid amt)) = true) := by
+    rintro (h | h | h)
+    · exact hne.1 h
+    · exact hne.2 h
+    · simp [hv, hcv] at h
+  refine ⟨fun d m hm hw hdep hu hf => ?_, fun ha hu hf => ?_⟩
+  · simp only [applyOp, h0, if_false, withdrawCoins, hm, hw, not_true_eq_false, hdep, Bool.not_true,
+      Bool.false_eq_true, hnb]
+    exact sendCoins_succeeds hu hf
+  · simp only [applyOp, h0, if_false, withdrawMarketFunds, ha, not_true_eq_false, hnb]
+    exact sendCoins_succeeds hu hf
+
+/-- An order settlement between two unsanctioned, funded accounts. -/
+theorem unsanctioned_funded_settlement_succeeds (s : State) (seller buyer : Addr) (assets price : Coins)
+    (hne : seller ≠ "" ∧ buyer ≠ "" ∧ seller ≠ buyer) (hv : validAmt assets = true ∧ validAmt price = true)
+    (hlen : assets.length = 1 ∧ price.length = 1) (hden : Coins.denoms assets ≠ Coins.denoms price)
+    (hf : hasFunds s.ledger seller assets = true ∧ hasFunds s.ledger buyer price = true)
+    (hu : isSanctionedAddr s.cfg s.st seller = false ∧ isSanctionedAddr s.cfg s.st buyer = false)
+    (hnb : seller ∉ s.cfg.blocked ∧ buyer ∉ s.cfg.blocked) :
+    applyOp s (.settle seller buyer assets price) =
+      .ok { s with ledger := (s.ledger.move seller buyer assets).move buyer seller price } := by
+  have h0 : ¬(seller = "" ∨ buyer = "" ∨ seller = buyer ∨ (!(validAmt assets && validAmt price)) = true ∨
+      assets.length ≠ 1 ∨ price.length ≠ 1 ∨ Coins.denoms assets = Coins.denoms price) := by
+    rintro (h | h | h | h | h | h | h)
+    · exact hne.1 h
+    · exact hne.2.1 h
+    · exact hne.2.2 h
+    · simp [hv.1, hv.2] at h
+    · exact h hlen.1
+    · exact h hlen.2
+    · exact hden h
+  have h1 : ¬(seller ∈ s.cfg.blocked ∨ buyer ∈ s.cfg.blocked) := by
+    rintro (h | h)
+    · exact hnb.1 h
+    · exact hnb.2 h
+  simp only [applyOp, h0, if_false, settleOrders, hf.1, hf.2, hu.1, hu.2, h1, Bool.not_true, Bool.false_eq_true,
+    Bool.or_self]
+
+/-- An exchange payment in which every side that pays something is unsanctioned and holds what it
+pays (the target pays out of what it holds after the source's part arrived); a side that pays
+nothing may be sanctioned. -/
+theorem unsanctioned_funded_payment_succeeds (s : State) (src tgt : Addr) (sAmt tAmt : Coins)
+    (hne : src ≠ "" ∧ tgt ≠ "") (hcv : coinsValid sAmt = true ∧ coinsValid tAmt = true)
+    (hsome : ¬(sAmt.isEmpty = true ∧ tAmt.isEmpty = true))
+    (hu : (sAmt.isEmpty = false → isSanctionedAddr s.cfg s.st src = false) ∧
+      (tAmt.isEmpty = false → isSanctionedAddr s.cfg s.st tgt = false))
+    (hf1 : hasFunds s.ledger src sAmt = true)
+    (hf2 : hasFunds (if sAmt.isEmpty then s.ledger else s.ledger.move src tgt sAmt) tgt tAmt = true) :
+    applyOp s (.pay src tgt sAmt tAmt) =
+      .ok { s with ledger :=
+        if tAmt.isEmpty then (if sAmt.isEmpty then s.ledger else s.ledger.move src tgt sAmt)
+        else (if sAmt.isEmpty then s.ledger else s.ledger.move src tgt sAmt).move tgt src tAmt } := by
+  have h0 : ¬(src = "" ∨ tgt = "" ∨ (!(coinsValid sAmt && coinsValid tAmt)) = true ∨
+      (sAmt.isEmpty = true ∧ tAmt.isEmpty = true)) := by
+    rintro (h | h | h | h)
+    · exact hne.1 h
+    · exact hne.2 h
+    · simp [hcv.1, hcv.2] at h
+    · exact hsome h
+  simp only [applyOp, h0, if_false, acceptPayment, hf1, Bool.not_true, Bool.false_eq_true]
+  cases hs : sAmt.isEmpty <;> cases ht : tAmt.isEmpty <;>
+    simp only [hs, ht, sendIfAny, if_true, if_false, Bool.false_eq_true] at hf2 ⊢
+  · rw [sendCoins_succeeds (hu.1 hs) hf1]
+    exact sendCoins_succeeds (s := { s with ledger := s.ledger.move src tgt sAmt }) (hu.2 ht) hf2
+  · rw [sendCoins_succeeds (hu.1 hs) hf1]
+  · exact sendCoins_succeeds (hu.2 ht) hf2
+
+/-! ### 5d. "although it can still receive funds"
+
+`credit_to_sanctioned_succeeds` is one `SendCoins` to another account.  The other ways funds reach
+a sanctioned account: as one of the outputs of a multi-send, as a depositor getting a gov deposit
+back (proposal rejected / passed / expired: `refundAll`; cancelled: `chargeDeposits`), and as the
+receiving side of a payment.  A credit that arrives in the same transaction as a debit of the
+sanctioned account does NOT arrive: the transaction is refused as a whole. -/
+
+/-- A multi-send by an unsanctioned, funded account succeeds whoever the outputs are, and each
+output account other than the sender — sanctioned or not — is credited the amount once per
+occurrence in the output list. -/
+theorem multi_send_credits_sanctioned_outputs (s : State) (frm to : Addr) (tos : List Addr) (amt : Coins) (d : Denom)
+    (hv : validAmt amt = true) (hne : tos ≠ []) (hu : isSanctionedAddr s.cfg s.st frm = false)
+    (hf : hasFunds s.ledger frm (Coins.scale tos.length amt) = true) (hto : to ≠ frm) :
+    ∃ s', applyOp s (.msend frm tos amt) = .ok s' ∧ s'.st = s.st ∧
+      s'.ledger.bal to d = s.ledger.bal to d + (tos.count to : Int) * Coins.amountOf amt d := by
+  refine ⟨_, (unsanctioned_funded_bank_routes_succeed s frm to tos amt hv hu).2 hne hf, rfl, ?_⟩
+  exact foldl_move_bal hto d
+
+/-- Gov deposits go back to sanctioned depositors: with the gov account protected, the refund of
+a proposal's deposits (`RefundAndDeleteDeposits`) and the partial refund at cancellation
+(`ChargeDeposit`) can fail only for lack of funds in the gov account — never because a depositor
+is sanctioned — and when the refund goes through every depositor has exactly what its deposit
+records hold (`Spec.owed`) more than before. -/
+theorem refunds_reach_sanctioned_depositors (s : State) (hg : s.cfg.govAcct ∈ s.cfg.unsanctionable)
+    (ds : List (Addr × Coins)) :
+    (∀ e, refundAll s ds = .error e → e = .funds) ∧
+    (∀ ch e, chargeDeposits s ch ds = .error e → e = .funds) ∧
+    (∀ s' a d, refundAll s ds = .ok s' → a ≠ s.cfg.govAcct →
+      s'.ledger.bal a d = s.ledger.bal a d + owed a d ds) :=
+  ⟨fun _ h => refundAll_error hg h, fun _ _ h => chargeDeposits_error hg h,
+    fun _ _ d h hne => refundAll_credit h hne d⟩
+
+/-- A payment to a sanctioned account that asks nothing back is a pure credit and succeeds; a
+payment or a settlement in which the sanctioned account also pays is refused as a whole — its
+credit is rolled back with the refused debit (the state is exactly what it was). -/
+theorem credit_with_refused_debit_is_rolled_back (s : State) (a other : Addr) (sAmt tAmt : Coins)
+    (ha : isSanctionedAddr s.cfg s.st a = true) :
+    (other ≠ "" → a ≠ "" → coinsValid sAmt = true → sAmt ≠ [] → isSanctionedAddr s.cfg s.st other = false →
+      hasFunds s.ledger other sAmt = true →
+      step s (.pay other a sAmt []) = { s with ledger := s.ledger.move other a sAmt }) ∧
+    (tAmt ≠ [] → step s (.pay other a sAmt tAmt) = s) ∧
+    (∀ assets price, step s (.settle a other assets price) = s ∧ step s (.settle other a assets price) = s) := by
+  refine ⟨fun h1 h2 h3 h4 h5 h6 => ?_, fun ht => ?_, fun assets price => ?_⟩
+  · have hs : sAmt.isEmpty = false := by cases sAmt <;> simp_all
+    have := unsanctioned_funded_payment_succeeds s other a sAmt [] ⟨h1, h2⟩ ⟨h3, rfl⟩ (by simp [hs])
+      ⟨fun _ => h5, fun h => by simp at h⟩ h6 (by simp [hasFunds, Coins.denoms])
+    unfold step
+    rw [this]
+    simp [hs]
+  · unfold step
+    cases hop : applyOp s (.pay other a sAmt tAmt) with
+    | error e => rfl
+    | ok s' => exact absurd ((behalf_routes_refuse_sanctioned_debit s s' a ha).2.2.2.2.1 other sAmt tAmt hop) ht
+  · constructor
+    · unfold step
+      cases hop : applyOp s (.settle a other assets price) with
+      | error e => rfl
+      | ok s' => exact absurd hop ((behalf_routes_refuse_sanctioned_debit s s' a ha).2.2.2.2.2 other assets price).1
+    · unfold step
+      cases hop : applyOp s (.settle other a assets price) with
+      | error e => rfl
+      | ok s' => exact absurd hop ((behalf_routes_refuse_sanctioned_debit s s' a ha).2.2.2.2.2 other assets price).2
+
 /-! ### 6. key layout (x/sanction/keeper/keys.go)
 
 The abstract store is keyed by `(addr, id)` and "latest" means greatest id. These theorems tie
@@ -830,6 +1161,70 @@ example :
     (∀ op ∈ ops, isCancel op = false) ∧ (s.props.map (·.status)) = [PStatus.rejected] ∧ s.st.temp = [] := by
   decide
 
+/-- the answer of the model to an operation was `err:sanctioned` -/
+def refusedAsSanctioned (r : R State) : Bool := match r with | .error .sanctioned => true | _ => false
+/-- the model accepted the operation -/
+def accepted (r : R State) : Bool := match r with | .ok _ => true | _ => false
+
+/-- `passed_proposal_takes_effect` / `passed_proposal_takes_effect_block` are not vacuous: a
+proposal with `MsgSanction [B, C]` then `MsgUnsanction [C]` whose deposit reached the immediate
+thresholds (temporary entries exist, `C`'s says "unsanction"), voted yes; the block at the end of its
+voting period makes it pass: `B` is sanctioned permanently, `C` is not, no temporary entry is left. -/
+example :
+    let msgs : List PMsg := [⟨true, true, ["B", "C"]⟩, ⟨false, true, ["C"]⟩]
+    let ops : List Op :=
+      [ .fund "A" [("stake", 5000)], .params [("stake", 500)] [("stake", 500)],
+        .submit "A" msgs [("stake", 1000)] false, .vote 1 .yes, .block 100 ]
+    let s := run (init witnessCfg) ops
+    let s' := run (init witnessCfg) (ops ++ [.block 0])
+    (s.props.map (·.status)) = [PStatus.voting] ∧ s.st.temp.length = 2 ∧ s.st.perm = [] ∧
+      (s'.props.map (·.status)) = [PStatus.passed] ∧
+      lastNaming "B" msgs = some true ∧ lastNaming "C" msgs = some false ∧
+      s'.st.temp = [] ∧ isSanctionedAddr witnessCfg s'.st "B" = true ∧ isSanctionedAddr witnessCfg s'.st "C" = false := by
+  decide
+
+/-- the hypothesis of `sanctioned_refusal_names_sanctioned_debited` holds of the witness
+configuration, and a refusal as sanctioned occurs (the sender `B` is the sanctioned debited account) -/
+example :
+    witnessCfg.govAcct ∈ witnessCfg.unsanctionable ∧
+    (let s := run (init witnessCfg) (witnessOps.take 3 ++ [.fund "B" [("stake", 50)]])
+     refusedAsSanctioned (applyOp s (.send "B" "A" [("stake", 5)])) = true ∧
+       debited s.cfg (.send "B" "A" [("stake", 5)]) = ["B"] ∧ isSanctionedAddr s.cfg s.st "B" = true) := by
+  decide
+
+/-- the hypotheses of `unsanctioned_funded_deposit_succeeds` / `…_submit_succeeds` /
+`…_bank_routes_succeed` hold in a state where somebody else (`B`) is sanctioned by the very
+proposal the deposit goes to -/
+example :
+    let s := run (init witnessCfg) (witnessOps.take 3 ++ [.fund "D" [("stake", 500)]])
+    let amt : Coins := [("stake", 200)]
+    isSanctionedAddr s.cfg s.st "B" = true ∧ isSanctionedAddr s.cfg s.st "D" = false ∧
+      (s.props.map (·.id)) = [1] ∧
+      (∀ p ∈ s.props, p.active = true ∧ ratioMet (depMinFor s.cfg p.expedited) amt = true ∧
+        ∀ m ∈ p.msgs, m.isSanction = true → ∀ x ∈ m.addrs, x ∉ s.cfg.unsanctionable) ∧
+      validAmt amt = true ∧ coinsValid amt = true ∧ acceptedDenoms s.cfg amt = true ∧ hasFunds s.ledger "D" amt = true ∧
+      onlyBond s.cfg amt = true ∧ hasFunds s.ledger "D" (Coins.scale 2 amt) = true ∧
+      Coins.covers amt (initMinFor s.cfg false) = true ∧ (validateMsgs [⟨false, true, ["B"]⟩]).toBool = true ∧
+      (step s (.deposit "D" 1 amt)).ledger.bal "D" "stake" = 300 ∧
+      (step s (.submit "D" [⟨false, true, ["B"]⟩] amt false)).nextId = 3 := by
+  decide
+
+/-- "can still receive": `D` is sanctioned; it is an output of a multi-send (twice), the receiving
+side of a payment that asks nothing back, and a depositor whose deposit comes back when the
+proposal is rejected; a payment that asks something back from it is refused as a whole. -/
+example :
+    let ops : List Op :=
+      [ .fund "A" [("stake", 5000)], .fund "D" [("stake", 500)],
+        .submit "D" [⟨true, true, ["B"]⟩] [("stake", 300)] false, .msg ⟨true, true, ["D"]⟩ ]
+    let s := run (init witnessCfg) ops
+    isSanctionedAddr s.cfg s.st "D" = true ∧ s.ledger.bal "D" "stake" = 200 ∧
+      owed "D" "stake" ((s.props.flatMap (·.deposits))) = 300 ∧
+      (step s (.msend "A" ["D", "B", "D"] [("stake", 10)])).ledger.bal "D" "stake" = 220 ∧
+      (step s (.pay "A" "D" [("stake", 10)] [])).ledger.bal "D" "stake" = 210 ∧
+      (step s (.pay "A" "D" [("stake", 10)] [("stake", 1)])).ledger.bal "D" "stake" = 200 ∧
+      (run s [.block 100, .block 0]).ledger.bal "D" "stake" = 500 := by
+  decide
+
 /-- two deposit denoms, a two-denom immediate threshold -/
 def multiCfg : Cfg :=
   { unsanctionable := ["GOV"], minDeposit := [("hash", 400), ("stake", 1000)], expMinDeposit := [("hash", 800), ("stake", 2000)],
@@ -885,6 +1280,36 @@ example :
       (step s (.pay "B" "A" [("acoin", 5)] [("stake", 1)])).ledger.bal "A" "stake" = 100 ∧
       (step s (.settle "A" "B" [("stake", 5)] [("acoin", 7)])).ledger.bal "A" "stake" = 100 ∧
       (step (step s (.msg ⟨false, true, ["A"]⟩)) (.settle "A" "B" [("stake", 5)] [("acoin", 7)])).ledger.bal "A" "stake" = 95 := by
+  decide
+
+/-- The second disjunct of `sanctioned_refusal_names_sanctioned_debited` is needed: a marker transfer
+of amount zero out of the sanctioned account `C` is answered `err:sanctioned` although it debits
+nobody (`debited` is empty); the same transfer out of the unsanctioned `B` is accepted.  (Replayed
+on the real app: corpus/C06/sanc.zero_transfer.ops.) -/
+theorem zero_transfer_from_sanctioned :
+    let s := run (init markerCfg) [.fund "C" [("rcoin", 100)], .fund "B" [("rcoin", 100)], .msg ⟨true, true, ["C"]⟩]
+    refusedAsSanctioned (applyOp s (.mxfer "B" "C" "B" "rcoin" 0)) = true ∧
+      debited s.cfg (.mxfer "B" "C" "B" "rcoin" 0) = [] ∧
+      accepted (applyOp s (.mxfer "B" "B" "C" "rcoin" 0)) = true := by
+  decide
+
+/-- the hypotheses of the on-behalf success theorems hold: administrator `B` (force-transfer access)
+takes coins of the unsanctioned `C`; `A` withdraws from the marker account; a payment and a
+settlement between unsanctioned accounts -/
+example :
+    let s := run (init markerCfg)
+      [.fund "C" [("rcoin", 100)], .fund "RC" [("rcoin", 100)], .fund "A" [("stake", 100)], .msg ⟨true, true, ["D"]⟩]
+    (s.cfg.markers.map (·.denom)) = ["rcoin"] ∧
+      (∀ m ∈ s.cfg.markers, "B" ∈ m.force ∧ "A" ∈ m.withdraw ∧
+        accepted (transferAuth s m "B" "C" "rcoin" 10) = true ∧ isSanctionedAddr s.cfg s.st m.addr = false ∧
+        hasFunds s.ledger m.addr [("rcoin", 5)] = true) ∧
+      validateSendToMarker s.cfg "B" "B" = true ∧ validateSendToMarker s.cfg "A" "A" = true ∧
+      isSanctionedAddr s.cfg s.st "C" = false ∧ isSanctionedAddr s.cfg s.st "D" = true ∧
+      hasFunds s.ledger "C" (oneCoin "rcoin" 10) = true ∧
+      (step s (.mxfer "B" "C" "B" "rcoin" 10)).ledger.bal "B" "rcoin" = 10 ∧
+      (step s (.mwd "A" "A" "rcoin" [("rcoin", 5)])).ledger.bal "A" "rcoin" = 5 ∧
+      (step s (.pay "A" "C" [("stake", 5)] [("rcoin", 7)])).ledger.bal "A" "rcoin" = 7 ∧
+      (step s (.settle "C" "A" [("rcoin", 5)] [("stake", 7)])).ledger.bal "C" "stake" = 7 := by
   decide
 
 end PvProofs.C06
